@@ -340,7 +340,8 @@ def check_frame_typing(repo, chk):
         if f_.key not in closure:
             chk.info("T-frame: %s calls cal_single_boost outside the helicity-angle computation (not judged)" % f_.key)
     users = [(f_, c_) for f_, c_ in users if f_.key in closure]
-    chained = [c_ for c_ in _ast.walk(ha.node) if isinstance(c_, _ast.Call) and norm_text(c_.func).split(".")[-1] == "cal_chain_boost"]
+    # (the call may sit in a helper of cal_helicity_angle)
+    chained = [c_ for k_ in sorted(closure) for c_ in _ast.walk(repo.fn(k_).node) if isinstance(c_, _ast.Call) and norm_text(c_.func).split(".")[-1] == "cal_chain_boost"]
     ok_use = bool(chained) and not users
     chk.oblige("T-frame", "cal_helicity_angle takes its rest-frame momenta from cal_chain_boost (%d call); cal_single_boost is used %d times on the way to the helicity angles" % (len(chained), len(users)), ok_use)
     for f_, c_ in users[:2]:
